@@ -145,6 +145,22 @@ fn stub_string_push(s: &mut String, ch: char) {
     }
 }
 
+/// Vec::push without amortised growth: in-place write while len < capacity; an empty Vec
+/// (capacity 0, e.g. `vec![]`) first gets one buffer of VCAP elements.  Outgrowing it trips
+/// the "harness bound" assertion (reported UNDECIDED).
+const VCAP: usize = 8;
+fn stub_vec_push<T, A: std::alloc::Allocator>(v: &mut Vec<T, A>, x: T) {
+    unsafe {
+        if v.capacity() == 0 {
+            v.reserve_exact(VCAP);
+        }
+        let len = v.len();
+        assert!(len < v.capacity(), "harness bound: Vec longer than its preallocated capacity");
+        core::ptr::write(v.as_mut_ptr().add(len), x);
+        v.set_len(len + 1);
+    }
+}
+
 // ------------------------------------------------------------------ spec helpers
 
 fn utf8_len(c: char) -> usize {
@@ -203,6 +219,7 @@ fn spec_scan<const N: usize>(inp: &Input<N>, base: usize, start: usize, d: char)
 }
 
 #[kani::proof]
+#[kani::stub(std::vec::Vec::push, stub_vec_push)]
 #[kani::unwind(@U_SCAN@)]
 fn delim_scan() {
     const N: usize = @N_SCAN@;
@@ -217,9 +234,9 @@ fn delim_scan() {
     lx.index = base as usize;
     let got = scan_for_unescaped_delim(&lx, start as usize, &[d], false);
     let want = spec_scan(&inp, base as usize, start as usize, d);
-    assert!(got == want, "C30.delim_scan: result is the first unescaped delimiter at or after start");
     kani::cover!(want.is_some() && want != Some(start as usize), "reachable: delimiter found after start");
     kani::cover!(want.is_none() && inp.len == N, "reachable: no unescaped delimiter");
+    assert!(got == want, "C30.delim_scan: result is the first unescaped delimiter at or after start");
 }
 
 // ================================================================== C30.lex.escapes.post
@@ -329,6 +346,7 @@ fn check_escapes<const N: usize>(inp: &Input<N>) {
 
 /// every text of <= N chars over T_ESC
 #[kani::proof]
+#[kani::stub(std::vec::Vec::push, stub_vec_push)]
 #[kani::unwind(@U_ESC@)]
 #[kani::stub(std::string::String::push, stub_push_log)]
 fn escapes() {
@@ -341,6 +359,7 @@ fn escapes() {
 /// kani::any() order: len, d2 index, d3 index, t index
 const T_HEX: [char; 7] = ['a', '7', 'F', '+', 'é', 'x', 'g'];
 #[kani::proof]
+#[kani::stub(std::vec::Vec::push, stub_vec_push)]
 #[kani::unwind(7)]
 #[kani::stub(std::string::String::push, stub_push_log)]
 fn escapes_hex() {
@@ -352,6 +371,7 @@ fn escapes_hex() {
 
 // ================================================================== C30.lex.handle_num.post
 #[kani::proof]
+#[kani::stub(std::vec::Vec::push, stub_vec_push)]
 #[kani::unwind(@U_NUM@)]
 #[kani::stub(std::string::String::push, stub_string_push)]
 #[kani::stub(core::str::count::count_chars, stub_count_chars)]
@@ -392,6 +412,8 @@ fn handle_num_post() {
             p += 1;
         }
     }
+    kani::cover!(dot && wn >= 3, "reachable: float literal");
+    kani::cover!(!dot && p - k > wn, "reachable: int literal with `_`");
     assert!(lx.tokens.len() == 1, "C30.handle_num: exactly one token");
     let t = &lx.tokens[0];
     let text: &String = match &t.kind {
@@ -417,10 +439,9 @@ fn handle_num_post() {
         }
         i += 1;
     }
-    assert!(t.span.lo == k && t.span.hi == p, "C30.handle_num: span covers exactly the literal (char positions)");
+    // the literal is ASCII, so its length is the same in chars and bytes; where it starts is C33's business
+    assert!(t.span.lo <= t.span.hi && t.span.hi - t.span.lo == p - k, "C30.handle_num: span is as long as the literal");
     assert!(lx.index == p, "C30.handle_num: cursor just after the literal");
-    kani::cover!(dot && wn >= 3, "reachable: float literal");
-    kani::cover!(!dot && p - k > wn, "reachable: int literal with `_`");
 }
 
 // ================================================================== C29 comments (lifted '/' arm)
@@ -431,6 +452,7 @@ fn handle_num_post() {
 // no token and no diagnostic is produced -- exactly the effect of the `' '` arm repeated.
 
 #[kani::proof]
+#[kani::stub(std::vec::Vec::push, stub_vec_push)]
 #[kani::unwind(@U_CMT@)]
 fn line_comment_skip() {
     const N: usize = @N_CMT@;
@@ -453,13 +475,14 @@ fn line_comment_skip() {
     while end < total && inp.cs[end - 2] != '\n' {
         end += 1;
     }
-    assert!(lx.index == end, "C29.line_comment: cursor lands on the next newline or the end of input");
-    assert!(lx.tokens.len() == 0, "C29.line_comment: no token is produced for a comment");
     kani::cover!(end < total && end > 2, "reachable: comment ended by newline");
     kani::cover!(end == total && total == N + 2, "reachable: comment ended by end of input");
+    assert!(lx.index == end, "C29.line_comment: cursor lands on the next newline or the end of input");
+    assert!(lx.tokens.len() == 0, "C29.line_comment: no token is produced for a comment");
 }
 
 #[kani::proof]
+#[kani::stub(std::vec::Vec::push, stub_vec_push)]
 #[kani::unwind(@U_CMT@)]
 fn block_comment_skip() {
     const N: usize = @N_CMT@;
@@ -487,22 +510,27 @@ fn block_comment_skip() {
         }
         j += 1;
     }
+    kani::cover!(close != usize::MAX && close > 3 && close + 2 < total, "reachable: terminated comment with body and tail");
+    kani::cover!(close == usize::MAX && total == N + 2, "reachable: unterminated comment");
     if close != usize::MAX {
         assert!(lx.index == close + 2, "C29.block_comment: cursor lands just after the first `*/`");
     } else {
         assert!(lx.index >= total, "C29.block_comment: an unterminated comment extends to the end of input");
     }
     assert!(lx.tokens.len() == 0, "C29.block_comment: no token is produced for a comment");
-    kani::cover!(close != usize::MAX && close > 3 && close + 2 < total, "reachable: terminated comment with body and tail");
-    kani::cover!(close == usize::MAX && total == N + 2, "reachable: unterminated comment");
 }
 
-// ================================================================== whole tokenize_file
-// Callee contracts used by the whole-function harnesses (checked separately:
-// `escapes` / `multiline_frame`).  They keep the frame (what the callee may touch) and drop
-// the string content, which no tokenize-level obligation observes.
+// ================================================================== C04.lex.tokenize.total (modular)
+// tokenize_file's own text (shebang skip, main loop, every arm, emit) is checked with its
+// callees replaced by their contracts -- each contract is an obligation of this unit:
+//   Lexer::handle_num           <- C30.lex.handle_num.post   (one Int/FloatLit token over the maximal literal)
+//   scan_for_unescaped_delim    <- C30.lex.delim_scan.post   (first unescaped delimiter)
+//   process_escapes_into        <- C30.lex.escapes.post      (reads its slice, may push diagnostics)
+//   handle_multiline_string     <- C04.lex.multiline.frame   (one StringLit token, cursor within the text)
+//   TokenKind::keyword_from_str <- C04.lex.keyword_table     (Some(k) only for k's own spelling)
+//   is_poly_ident               <- its doc comment (`T, U, V, T2, T123`), ASCII identifiers only
+// Literal *contents* are dropped by the stubs: no clause below observes them.
 
-/// contract of process_escapes_into: reads `chars`, may push diagnostics, returns a String.
 fn stub_process_escapes(chars: &[char], ctx: &mut StaticsContext, file_id: FileId) -> String {
     if chars.len() > 0 && kani::any() {
         ctx.errors.push(Error::UnrecognizedEscapeSequence(file_id, Span { lo: 0, hi: 1 }));
@@ -510,9 +538,6 @@ fn stub_process_escapes(chars: &[char], ctx: &mut StaticsContext, file_id: FileI
     String::new()
 }
 
-/// contract of handle_multiline_string (pre: at_triple_quote(0)): pushes exactly one
-/// StringLit token with span [index, index'), index + 3 <= index' <= chars.len(), moves the
-/// cursor to index', may push diagnostics.
 fn stub_multiline(lexer: &mut Lexer, ctx: &mut StaticsContext, file_id: FileId) {
     let lo = lexer.index;
     let adv: u8 = kani::any();
@@ -525,18 +550,92 @@ fn stub_multiline(lexer: &mut Lexer, ctx: &mut StaticsContext, file_id: FileId) 
     lexer.index = hi;
 }
 
+fn stub_handle_num(lx: &mut Lexer) {
+    let n = lx.chars.len();
+    let k = lx.index;
+    let mut p = k;
+    let mut dot = false;
+    while p < n && (lx.chars[p].is_ascii_digit() || lx.chars[p] == '_') {
+        p += 1;
+    }
+    if p < n && lx.chars[p] == '.' {
+        dot = true;
+        p += 1;
+        while p < n && (lx.chars[p].is_ascii_digit() || lx.chars[p] == '_') {
+            p += 1;
+        }
+    }
+    let kind = if dot { TokenKind::FloatLit(String::new()) } else { TokenKind::IntLit(String::new()) };
+    lx.tokens.push(Token { kind, span: Span { lo: k, hi: p } });
+    lx.index = p;
+}
+
+fn stub_scan(lexer: &Lexer, start: usize, delim: &[char], stop_at_newline: bool) -> Option<usize> {
+    assert!(delim.len() == 1 && !stop_at_newline, "harness bound: scan contract covers single-char delimiters only");
+    let n = lexer.chars.len();
+    let base = lexer.index;
+    let mut p = start;
+    while base + p < n {
+        if lexer.chars[base + p] == delim[0] {
+            let mut k = 0;
+            while p - k > start && lexer.chars[base + p - k - 1] == '\\' {
+                k += 1;
+            }
+            if k % 2 == 0 {
+                return Some(p);
+            }
+        }
+        p += 1;
+    }
+    None
+}
+
+fn stub_keyword_from_str(s: &str) -> Option<TokenKind> {
+    // no keyword can be spelled over the harness alphabet {a, x, n, 7, _}
+    let b = s.as_bytes();
+    let mut i = 0;
+    while i < b.len() {
+        assert!(matches!(b[i], b'a' | b'x' | b'n' | b'7' | b'_'), "harness bound: identifier outside the alphabet");
+        i += 1;
+    }
+    None
+}
+
+fn stub_is_poly_ident(ident: &str) -> bool {
+    let b = ident.as_bytes();
+    if b.len() == 0 || !b[0].is_ascii_uppercase() {
+        return false;
+    }
+    let mut i = 1;
+    while i < b.len() {
+        assert!(b[i].is_ascii(), "harness bound: non-ASCII identifier");
+        if b[i].is_ascii_alphabetic() {
+            return false;
+        }
+        i += 1;
+    }
+    true
+}
+
 #[kani::proof]
+#[kani::stub(std::vec::Vec::push, stub_vec_push)]
 #[kani::unwind(@U_TOK@)]
 #[kani::stub(std::string::String::push, stub_string_push)]
 #[kani::stub(core::str::count::count_chars, stub_count_chars)]
 #[kani::stub(process_escapes_into, stub_process_escapes)]
 #[kani::stub(handle_multiline_string, stub_multiline)]
+#[kani::stub(Lexer::handle_num, stub_handle_num)]
+#[kani::stub(scan_for_unescaped_delim, stub_scan)]
+#[kani::stub(TokenKind::keyword_from_str, stub_keyword_from_str)]
+#[kani::stub(is_poly_ident, stub_is_poly_ident)]
 fn tokenize_total() {
     const N: usize = @N_TOK@;
     let inp = any_input::<N, 16>(&T_ALL);
     let mut ctx = mk_ctx(to_source(&inp));
     let toks = tokenize_file(&mut ctx, 0);
     let n = toks.len();
+    kani::cover!(n == N + 1, "reachable: one token per char");
+    kani::cover!(ctx.errors.len() > 0, "reachable: diagnostic produced");
     assert!(n >= 1 && n <= N + 1, "C04.tokenize: at least the Eof token, at most one token per char");
     assert!(matches!(toks[n - 1].kind, TokenKind::Eof), "C04.tokenize: the last token is Eof");
     let mut i = 0;
@@ -551,8 +650,31 @@ fn tokenize_total() {
         }
         i += 1;
     }
-    kani::cover!(n == N + 1, "reachable: one token per char");
-    kani::cover!(ctx.errors.len() > 0, "reachable: diagnostic produced");
+    core::mem::forget(toks);
+    core::mem::forget(ctx);
+}
+
+/// every keyword is recognised from its own spelling and is as long as it (concrete, loop over the table)
+#[kani::proof]
+#[kani::unwind(12)]
+#[kani::stub(core::str::count::count_chars, stub_count_chars)]
+fn keyword_table() {
+    const KW: [&str; 33] = [
+        "let", "var", "type", "interface", "outputtype", "implement", "impl", "extend", "use", "as",
+        "except", "fn", "match", "and", "or", "not", "break", "continue", "return", "while", "for", "in",
+        "if", "else", "task", "nil", "true", "false", "int", "float", "bool", "string", "void",
+    ];
+    let i: u8 = kani::any();
+    kani::assume((i as usize) < KW.len());
+    let w = KW[i as usize];
+    match TokenKind::keyword_from_str(w) {
+        Some(k) => {
+            assert!(k.is_keyword(), "C04.keyword_table: keyword_from_str yields keywords only");
+            assert!(k.nchars() == w.len(), "C04.keyword_table: a keyword token is as long as its spelling");
+        }
+        None => assert!(false, "C04.keyword_table: every keyword is recognised from its spelling"),
+    }
+    kani::cover!(true, "reachable");
 }
 
 // ================================================================== C33.lex.span.byte_offsets
@@ -568,6 +690,7 @@ fn tokenize_total() {
 // stands on char k (the main loop's `index` always is a count of consumed chars), then the
 // real emit / handle_num run.  Byte offsets of char positions are computed by `byte_off`.
 #[kani::proof]
+#[kani::stub(std::vec::Vec::push, stub_vec_push)]
 #[kani::unwind(@U_SPAN@)]
 #[kani::stub(std::string::String::push, stub_string_push)]
 #[kani::stub(core::str::count::count_chars, stub_count_chars)]
@@ -599,10 +722,10 @@ fn span_byte_offsets() {
         }
     }
     let blen = byte_off(&inp, inp.len);
+    kani::cover!(byte_off(&inp, k) > k, "reachable: token preceded by multi-byte text");
+    kani::cover!(byte_off(&inp, k) == k && k > 0, "reachable: token preceded by ASCII text only");
     assert!(sp.lo <= sp.hi && sp.hi <= blen, "C33.span: token span lies within the source (byte offsets)");
     assert!(sp.lo == byte_off(&inp, k), "C33.span: span.lo is the byte offset of the token's first char (a char boundary)");
     assert!(sp.hi == byte_off(&inp, k2), "C33.span: span.hi is the byte offset just after the token's last char (a char boundary)");
-    kani::cover!(byte_off(&inp, k) > k, "reachable: token preceded by multi-byte text");
-    kani::cover!(byte_off(&inp, k) == k && k > 0, "reachable: token preceded by ASCII text only");
     core::mem::forget(lx);
 }
